@@ -171,7 +171,7 @@ class SchematicDiagramSolution:
     def draw_potential(self, name: str, loc:str = '') -> elm.LabelNode:
         element = self.diagram_parser.get_element(name)
         phi_label = self.solution.get_potential(name=name)
-        return elm.LabelNode(id_loc=loc, name=phi_label, at=element.absdrop[0], color=dsp.blue)
+        return elm.LabelNode(id_loc=loc, name=phi_label, at=element.absanchors['start'], color=dsp.blue) # where the node symbol is; absdrop is where the drawing cursor was left, which is another place for a symbol added with hold()
 
 def empty_solution(schematic: elm.Schematic) -> SchematicDiagramSolution:
     return SchematicDiagramSolution(
